@@ -10,7 +10,7 @@ PROPERTY = "C03"
 RULE = ("enum: every composition (n+, n-, n0) with N<=27 (quick) / N<=44 (thorough), each presented through 3 "
         "seed-chosen arrangements and spellings; hyp: random compositions to 120 (quick) / 300 (thorough) residues with "
         "boosted regime boundaries (n0 in 16..20, n+ = n-, equal blocks, single minority charge), 2 presentations each. "
-        "Oracle: (i) all presentations return the same value; (ii) get_deltaMax(True) returns (v, s) with v equal to the plain "
+        "maximisers-after-kappa: every composition with 5<=N<=10/13 at its brute-forced delta-maximiser, queried after get_kappa() on the same object; long-neighbours: 2-4 compositions of one length 101..160 differing by one residue, analysed one after another in the same process; random cases <=40 residues may follow a warm-up history. Oracle: (i) all presentations return the same value; (ii) get_deltaMax(True) returns (v, s) with v equal to the plain "
         "call, s a rearrangement of the input whose exact reference delta equals v; (iii) v equals the maximum of exact "
         "rational delta over the documented candidate family (either reading where the prose is ambiguous). Non-trivial: "
         "a charged residue present and reference delta-max > 0; distinct by composition+presentation.")
@@ -39,12 +39,12 @@ def check_comp(ctx, case):
     ctx.count(case, nontrivial=(P + M > 0 and max(refs) > 0), classes=cl)
     vals = []
     for s in seqs:
-        o = util.sp(s)
+        o = util.spw(s, case)
         v = o.get_deltaMax()
         vals.append(v)
         ctx.check(any(ref.close(v, float(r)) for r in refs), "family-max",
                   "get_deltaMax()=%r for composition %s (%s); documented family maximum %s" % (v, (P, M, Z), reg, [float(r) for r in refs]), case)
-        o2 = util.sp(s)
+        o2 = util.spw(s, case)
         res = o2.get_deltaMax(returnSeqDeltaMax=True)
         ctx.check(isinstance(res, tuple) and len(res) == 2, "permutant-shape", "get_deltaMax(True) returned %r" % (res,), case)
         v2, perm = res
@@ -73,7 +73,32 @@ def enum_cases(tier, seed):
 @st.composite
 def hyp_case(draw, max_len):
     P, M, Z = draw(gens.compositions(max_len=max_len))
-    return {"comp": [P, M, Z], "seqs": [draw(gens.by_composition(P, M, Z)) for _ in range(2)]}
+    return {"comp": [P, M, Z], "seqs": [draw(gens.by_composition(P, M, Z)) for _ in range(2)],
+            "warm": draw(gens.warmups(3)) if P + M + Z <= 40 else []}
+
+
+def maximiser_cases(tier, seed):
+    """Every composition at its brute-forced delta-maximising arrangement, queried after get_kappa() on the same object
+    (the arrangement whose own delta may exceed the documented family maximum)."""
+    rnd = random.Random(seed + 3)
+    hi = 10 if tier == "quick" else 13
+    from .. import patmax
+    for P, M, Z in util.all_compositions(hi, 5):
+        best = patmax.table(P + M + Z)[(P, M, Z)]
+        yield {"comp": [P, M, Z], "seqs": [util.spell(best, rnd)], "warm": [["get_kappa", None]]}
+
+
+def check_neighbours(ctx, case):
+    if "comp" in case:
+        return check_comp(ctx, case)
+    for c, s in zip(case["comps"], case["seqs"]):
+        check_comp(ctx, {"comp": c, "seqs": [s], "neighbour_of": case["comps"][0]})
+
+
+@st.composite
+def neighbour_case(draw):
+    comps = draw(gens.neighbour_compositions())
+    return {"comps": comps, "seqs": [draw(gens.by_composition(*c)) for c in comps]}
 
 
 def parts(tier):
@@ -83,4 +108,7 @@ def parts(tier):
         Part("hyp-compositions", "hyp", check=check_comp,
              strategy=lambda t: hyp_case(120 if t == "quick" else 300),
              examples={"quick": 800, "thorough": 6400}, shards={"quick": 16, "thorough": 16}),
+        Part("enum-maximisers-after-kappa", "enum", check=check_comp, cases=maximiser_cases, exhaustive=True, shards={"quick": 8, "thorough": 16}),
+        Part("hyp-long-neighbours", "hyp", check=check_neighbours, strategy=lambda t: neighbour_case(), shrink=False,
+             examples={"quick": 96, "thorough": 1600}, shards={"quick": 16, "thorough": 16}),
     ]
